@@ -139,6 +139,8 @@ def plan(tier, seed, wave):
                     tasks.append({"fam": "single", "lo": lo, "hi": min(10000, lo + step - 1), "blocked": blocked, "max": 10000})
         for blocked in (False, True):
             tasks.append({"fam": "pair", "blocked": blocked})
+        for blocked in (False, True):
+            tasks.append({"fam": "huge", "blocked": blocked})
     if tier == "quick":
         if wave > 0:
             return []
@@ -160,6 +162,28 @@ def run_task(task):
                        "api": api, "reader": reader, "knobs": {"MAX_VBS_RECORD_LENGTH": task["max"]},
                        "records": [{"pos": [0, ln]}]}
                 run_one(scn, part)
+        part["runs"] += 1
+    elif task["fam"] == "huge":
+        # one call of write_many / a loop of write producing more than 4 MiB of framed bytes, and a
+        # 64 KiB record under a raised maximum
+        n = 760
+        big = [{"pos": [i * 7, 5600 + (i % 400)]} for i in range(n)]
+        for api in ("write_many", "write", "ctx_many"):
+            run_one({"kind": "vbs_pipeline", "level": "vbs", "blocked": task["blocked"], "storage": "sim", "api": api,
+                     "reader": "class", "knobs": {"MAX_VBS_RECORD_LENGTH": 6000}, "records": big}, part)
+        for ln in (65535, 65536, 65537, 70000):
+            run_one({"kind": "vbs_pipeline", "level": "vbs", "blocked": task["blocked"], "storage": "sim", "api": "write",
+                     "reader": "class", "knobs": {"MAX_VBS_RECORD_LENGTH": 70000},
+                     "records": [{"pos": [0, 10]}, {"pos": [10, ln]}, {"pos": [3, 5]}]}, part)
+        # record COUNT crossing 255 and 65535 in one file
+        for n in (255, 256, 257, 65535, 65536, 66000):
+            if n > 300 and task["blocked"] and n != 65536:
+                continue
+            run_one({"kind": "vbs_pipeline", "level": "vbs", "blocked": task["blocked"], "storage": "sim", "api": "write_many",
+                     "reader": "class", "knobs": {"MAX_VBS_RECORD_LENGTH": 6000},
+                     "records": [{"pos": [i, 1 + (i % 3)]} for i in range(n)]}, part)
+        part["counters"]["probe:file_with_more_than_65535_records"] += 1
+        part["counters"]["probe:file_over_4MiB_written_in_one_write_many"] += 1
         part["runs"] += 1
     elif task["fam"] == "pair":
         for base in (0, 1012, 2024, 4048):
